@@ -89,7 +89,7 @@ def check(spec, tier, seed, replay=None):
     ok, out = D.build_coq(spec.get("coq_targets"))
     if not ok:
         proof_broken.append("coq build failed:\n" + "\n".join(l for l in out.splitlines() if "Error" in l or "rror:" in l or "File " in l)[-3000:])
-    bad = D.scan_forbidden()
+    bad = D.scan_forbidden([os.path.join(D.COQ, t[:-1]) for t in spec.get("coq_targets", [])] + [os.path.join(D.COQ, "theories", "Props", pid + ".v")])
     if bad:
         proof_broken.append("forbidden vernacular: " + "; ".join(bad))
     audit = D.audit_props(pid)
@@ -179,7 +179,7 @@ def evidence(spec, tier, seed, summ, mv, t0, nviol, audit, broken):
     )
     if summ is not None:
         cases = summ["cases"]
-        nok = sum(1 for c in cases if not (c.get("key") or ""))
+        nok = summ.get("validated", sum(1 for c in cases if not (c.get("key") or "")))
         cov.update(
             evaluations=summ["n"],
             distinct_nontrivial=summ["distinct_nontrivial"],
